@@ -950,6 +950,13 @@ def entity_local_check(ctx, prog, rty, trackers):
                     cb2 = prog.resolve_local(fr2) if fr2 else None
                     if cb2 is not None:
                         names.add((lib.impl_self_name(cb2), cb2.raw.get("name")))
+                        # by role (private getters may be renamed): the tracker's getter of the running system id, the
+                        # reactor handle's getter of its own system id
+                        if lib.impl_self_name(cb2) == "EntityReactionAccessTracker" and cb2.arg_count == 1 and cb2.local_ty(0).endswith("::SystemCommand"):
+                            names.add(("EntityReactionAccessTracker", "system"))
+                        if lib.impl_self_name(cb2) == "EntityReactor" and cb2.arg_count == 1 and cb2.local_ty(0).startswith("core::option::Option<") \
+                                and "SystemCommand" in cb2.local_ty(0):
+                            names.add(("EntityReactor", "system"))
         if ("EntityReactionAccessTracker", "system") in names and ("EntityReactor", "system") in names:
             for (sb, tt, ft) in lib.bool_arms(chk, b):
                 heads.append(tt if lib.tail(mir.fn_name(fr), 1) == "eq" else ft)
